@@ -105,14 +105,21 @@ if P and P.get('kind') == 'emb':
 
     @v_args(tree=True)
     class TTree(Transformer):
+        # callbacks reached through aliases (let, es, add, var) and through a template (list) read tree.data
         def let(self, t):
-            return ('let', len(t.children), tuple(t.children))
+            return (str(t.data), len(t.children), tuple(t.children))
+
+        def es(self, t):
+            return (str(t.data),) + tuple(t.children)
 
         def add(self, t):
-            return ('add',) + tuple(t.children)
+            return (str(t.data),) + tuple(t.children)
 
         def var(self, t):
-            return ('var', str(t.children[0]))
+            return (str(t.data), str(t.children[0]))
+
+        def neg(self, t):
+            return (str(t.data), len(t.children))
 
         def list(self, t):
             return ('list', str(t.data), tuple(t.children))
@@ -128,7 +135,24 @@ if P and P.get('kind') == 'emb':
         def NAME(self, t):
             return t.update(value=t.value.upper())
 
-    TRANSFORMERS = [TPlain, TTokens, TInline, TTree, TPartial]
+    class TBox(Transformer):
+        # a terminal callback that returns a Tree whose name has a callback of its own (it must not be transformed again)
+        def NUM(self, t):
+            return Tree('boxed', [int(t)])
+
+        def NAME(self, t):
+            return Tree('var', [Token('NAME', t.value + '_')])
+
+        def boxed(self, c):
+            return ('unboxed', c[0])
+
+        def var(self, c):
+            return ('var', str(c[0]))
+
+        def add(self, c):
+            return ('add', c[0], c[1])
+
+    TRANSFORMERS = [TPlain, TTokens, TInline, TTree, TPartial, TBox]
     LEXER = P.get('lexer', 'contextual')
     PLAIN = Lark(GRAMMAR, parser='lalr', lexer=LEXER)
     EMB = [Lark(GRAMMAR, parser='lalr', lexer=LEXER, transformer=T()) for T in TRANSFORMERS]
@@ -188,7 +212,12 @@ if P and P.get('kind') == 'var':
             def X(self, t):
                 log.append(('X', str(t)))
                 return ('x', str(t))
-            # c and Y keep their defaults
+
+            def Y(self, t):
+                # a Tree whose name (b) has a callback: no variant may transform it again
+                log.append(('Y', str(t)))
+                return Tree('b', [str(t)])
+            # c keeps its default
         return Rec()
     BASES = [Transformer, Transformer_NonRecursive, Transformer_InPlace, Transformer_InPlaceRecursive]
 
@@ -245,7 +274,7 @@ def _var_body(rec, ar, rot):
                 return hs.fail(rec, '%s result differs from Transformer' % base.__name__, tree=hs.plain(ref_tree), got=repr(r)[:300], want=repr(results[0])[:300])
         # every callback once per node, children before parents: the multiset of calls is fixed by the tree; order is bottom-up
         want_calls = sorted([(str(t.data), len(t.children)) for t in ref_tree.iter_subtrees() if t.data in ('a', 'b')] +
-                            [('X', str(t)) for t in ref_tree.scan_values(lambda v: isinstance(v, Token) and v.type == 'X')])
+                            [(t.type, str(t)) for t in ref_tree.scan_values(lambda v: isinstance(v, Token) and v.type in ('X', 'Y'))])
         for base, log in zip(BASES, logs):
             if sorted(log) != want_calls:
                 return hs.fail(rec, '%s: callbacks not called exactly once per node' % base.__name__, tree=hs.plain(ref_tree), calls=log[:12], want=want_calls[:12])
@@ -265,9 +294,9 @@ def plan(tier, seed):
     slices = []
     L = 3 if quick else 4
     for lexer in ('contextual', 'basic'):
-        for ti in range(5):
+        for ti in range(6):
             for pin in range(len(LEXEMES)):
-                if lexer == 'basic' and quick and ti not in (1, 4):
+                if lexer == 'basic' and quick and ti not in (1, 5):
                     continue
                 slices.append({'id': 'emb:%s:T%d:L%d:pin%d' % (lexer, ti, L, pin), 'func': 'emb', 'params': {'kind': 'emb', 'L': L, 'ti': ti, 'pin': pin, 'lexer': lexer},
                                'timeout': 300 if quick else 2000, 'twin': ti == 0 and pin == 0 and lexer == 'contextual', 'bound': {'lexemes': L, 'kinds': len(LEXEMES)}})
@@ -278,7 +307,7 @@ def plan(tier, seed):
         'technique': 'CrossHair symbolic execution of the real callback plumbing (create_callback, apply_visit_wrapper, inplace transformers, shift-time terminal callbacks) and of the four transformer classes',
         'functions_encoded': ['lark.parse_tree_builder.ParseTreeBuilder.create_callback', 'lark.visitors.Transformer/_NonRecursive/_InPlace/_InPlaceRecursive', 'v_args wrappers',
                               'lark.parser_frontends._get_lexer_callbacks', 'ParserState.feed_token (terminal callbacks)', 'lark.lark.Lark._prepare_callbacks'],
-        'bounds': {'lexemes': L, 'tree_nodes': N, 'transformer_classes': 5},
+        'bounds': {'lexemes': L, 'tree_nodes': N, 'transformer_classes': 6},
         'outside_bounds': ['Discard', 'meta arguments', '__default__/__default_token__ overrides (excepted by the property)', 'longer inputs'],
         'stubs_and_assumes': ['callbacks are pure; texts are lexeme-composed (well tokenised)'],
     }
